@@ -1179,9 +1179,10 @@ class ASTBuilder:
             assert self.currentMod is None
             obj.parentMod = self.currentMod = obj
         elif self.currentMod is not None:
-            if obj.parentMod is not None:
-                assert obj.parentMod is self.currentMod
-            else:
+            # An existing object is entered again (an overloaded function): a re-export may have
+            # moved it to another module, together with its class, while the class body is
+            # still being visited.
+            if obj.parentMod is None:
                 obj.parentMod = self.currentMod
         else:
             assert obj.parentMod is None
